@@ -56,3 +56,10 @@ Theorem C19_accounted_complete : forall baseline ds mounted s,
   accounted baseline ds mounted = false /\ ~ In s (upgrade_path baseline ds).
 Proof. exact accounted_complete. Qed.
 Print Assumptions C19_accounted_complete.
+
+(** this binary can be started (store loader from upgrade-info.json) exactly at the heights of the upgrades from which all
+    its stores are declared: v2.2.0 and v2.2.1; the real binary is started at every height in a child process and must
+    answer the same (UPROBE lines of the upgrade profile) *)
+Theorem C19_loadable_heights : map loadable_at (seq 0 (length GenUpgrade.upgrades)) = [false; false; false; true; true].
+Proof. exact repo_loadable_heights. Qed.
+Print Assumptions C19_loadable_heights.
